@@ -237,7 +237,9 @@ parse_mot(struct ttx_magazine *mag, uint8_t *raw, int packet)
 	{
 		struct ttx_pop_link *pop;
 
-		pop = &mag->pop_link[0][(packet - 19) * 4];
+		/* Packet 19, 20: pop_link[0][0 ... 7] (Level 2.5),
+		   22 (now 21), 23 (now 22): pop_link[1][0 ... 7] (3.5). */
+		pop = &mag->pop_link[(packet - 19) >> 1][((packet - 19) & 1) * 4];
 
 		for (i = 0; i < 4; raw += 10, pop++, i++) {
 			int n[10];
@@ -280,17 +282,17 @@ parse_mot(struct ttx_magazine *mag, uint8_t *raw, int packet)
 	case 21:	/* level 2.5 drcs */
 	case 24:	/* level 3.5 drcs */
 	    {
-		int index = (packet == 21) ? 0 : 8;
+		int level = (packet == 21) ? 0 : 1;
 		int n[4];
 
-		for (i = 0; i < 8; raw += 4, index++, i++) {
+		for (i = 0; i < 8; raw += 4, i++) {
 			for (err = j = 0; j < 4; j++)
 				err |= n[j] = vbi_unham8 (raw[j]);
 
 			if (err < 0)
 				continue;
 
-			mag->drcs_link[0][index] = (((n[0] & 7) ? : 8) << 8) + (n[1] << 4) + n[2];
+			mag->drcs_link[level][i] = (((n[0] & 7) ? : 8) << 8) + (n[1] << 4) + n[2];
 
 			/* n[3] number of subpages ignored */
 		}
